@@ -434,6 +434,19 @@ func Decide(c *Case, run func() ImplOut, extra map[string]func(*model.Interp, *g
 	v.Impl = io
 	v.Msg, v.Model, v.Rows = match(c, io, pre, extra, checkPoint, checkPos)
 	v.Weak = len(v.Rows) > 0
+	if v.Msg != "" && c.Between == nil && len(ring) > 0 && !c.NoHistory {
+		// should the difference stem from what ran before, the replay can show it: the case that ran just
+		// before this one is saved with it and is run between two runs of this case
+		prev := ring[(ringNext-1+len(ring))%len(ring)]
+		if prev.c.V2 == c.V2 && prev.c != c {
+			rep := *c
+			pc := *prev.c
+			pc.Between, pc.reportAs = nil, nil
+			rep.Between = &pc
+			rep.reportAs = nil
+			c.reportAs = &rep
+		}
+	}
 	if v.Msg != "" || io.Again == nil || c.NoHistory || len(io.LoadErrs) > 0 {
 		return v
 	}
